@@ -6,14 +6,16 @@
    its tie-break, the Hirschberg controller - run over integers with minus infinity, every binary32 parameter
    taken at its real value): the sequence-sequence kernel returns the diagonal on two equal residue strings of
    every length, for every scoring scheme that passes a finite check, and kalign's five built-in schemes (as
-   the built code has them now) pass it.  The general lemma behind it (square_meet / raw_path_diag) is stated
-   over any cost record, so it also covers the two profile kernels once their cost accessors are instantiated;
-   that instantiation and the rounding of the binary32 run are NOT theorems: they are decided on every run by
-   the bit-exact correspondence of the executable binary32 model with the implementation (every merge: raw
-   path and every meetup maximum) and by end-to-end runs over residue compositions, lengths, copy numbers,
-   types and thread counts (DESIGN C08). *)
+   the built code has them now) pass it; so do the sequence-profile and the profile-profile kernel on groups
+   of copies, whose profiles are followed through make_profile, set_gap_penalties and update_profile; hence
+   the WHOLE progressive run of the model (do_align with its choice of kernel and mirroring, every task list,
+   any number of copies) makes only diagonal, all-match merges and returns the input rows without a gap.
+   NOT a theorem: that the binary32 run takes the same decisions as the exact one (rounding).  That is decided
+   on every run by the bit-exact correspondence of the executable binary32 model with the implementation
+   (every merge: raw path and every meetup maximum) and by end-to-end runs over residue compositions, lengths,
+   copy numbers, types and thread counts (DESIGN C08). *)
 From Coq Require Import ZArith List Bool Lia.
-From KV Require Import Base FP Params Weave WeaveProofs WeaveCheck DupProofs Kernels Pipeline ExactDiag ExactDiagInst.
+From KV Require Import Base FP Params Weave WeaveProofs WeaveCheck DupProofs Kernels Pipeline ExactDiag ExactDiagInst ExactDiagProf ExactDiagRun.
 Import ListNotations.
 
 (* the raw path 1, 2, .., L against a side of length L is expanded by add_gap_info_to_path_n to L match
@@ -134,3 +136,86 @@ Print Assumptions C08_equal_pair_has_no_gap_under_builtin_schemes.
 Example C08_builtin_schemes_decode :
   forallb (fun s => match scheme_of s with Some _ => true | None => false end) [PS_DNA; PS_DNA_INTERNAL; PS_RNA; PS_PROTEIN; PS_GON] = true.
 Proof. vm_compute. reflexivity. Qed.
+
+(* ---- the profile kernels and the whole run, exact arithmetic ----------------------------------------------- *)
+(* a group of k1 copies against a group of k2 copies (profile-profile kernel); profK describes the entries of the two
+   prepared profiles that the kernel reads *)
+Theorem C08_profile_profile_kernel_returns_the_diagonal_on_groups_of_copies :
+  forall (unit : Z), (0 <= unit)%Z -> forall (S : list (list Z)) (gpo gpe tgpe gam : Z) (dim : nat) (mx : Z),
+  scheme_ok unit S gpo gpe tgpe gam dim mx = true -> (dim <= 23)%nat ->
+  forall x : list Z, Forall (fun c => inr dim c = true) x ->
+  forall (k1 k2 : Z) (p1 p2 : list (column (AX unit))), (1 <= k1)%Z -> (1 <= k2)%Z ->
+  profK unit S gpo gpe tgpe x k1 k2 p1 -> profK unit S gpo gpe tgpe x k2 k1 p2 ->
+  raw_path (AX unit) (pp_kernel (AX unit) p1 p2) (Z.of_nat (length x)) (Z.of_nat (length x)) = Some (diag (length x)).
+Proof. exact pp_identical_diagonal. Qed.
+Print Assumptions C08_profile_profile_kernel_returns_the_diagonal_on_groups_of_copies.
+
+(* a group of k copies (rows) against one more copy (columns): sequence-profile kernel *)
+Theorem C08_sequence_profile_kernel_returns_the_diagonal_on_copies :
+  forall (unit : Z), (0 <= unit)%Z -> forall (S : list (list Z)) (gpo gpe tgpe gam : Z) (dim : nat) (mx : Z),
+  scheme_ok unit S gpo gpe tgpe gam dim mx = true -> (dim <= 23)%nat ->
+  forall x : list Z, Forall (fun c => inr dim c = true) x ->
+  forall (k : Z), (1 <= k)%Z -> forall p1 : list (column (AX unit)), profK unit S gpo gpe tgpe x k 1 p1 ->
+  raw_path (AX unit) (sp_kernel (AX unit) (PX unit S gpo gpe tgpe) p1 x k) (Z.of_nat (length x)) (Z.of_nat (length x)) = Some (diag (length x)).
+Proof. exact sp_identical_diagonal. Qed.
+Print Assumptions C08_sequence_profile_kernel_returns_the_diagonal_on_copies.
+
+(* the profile of a single sequence is the profile of one copy; preparing and adding profiles keeps the description *)
+Theorem C08_profiles_of_copies :
+  forall (unit : Z) (S : list (list Z)) (gpo gpe tgpe : Z) (dim : nat) (x : list Z),
+  (dim <= 23)%nat -> Forall (fun c => inr dim c = true) x -> (1 <= length x)%nat ->
+  rawK unit S gpo gpe tgpe x 1 (make_profile (AX unit) (PX unit S gpo gpe tgpe) x) /\
+  (forall k n p, rawK unit S gpo gpe tgpe x k p ->
+     profK unit S gpo gpe tgpe x k n (set_gap_penalties (AX unit) p n) /\ rawK unit S gpo gpe tgpe x k (set_gap_penalties (AX unit) p n)) /\
+  (forall k1 k2 sa sb pa pb, rawK unit S gpo gpe tgpe x k1 pa -> rawK unit S gpo gpe tgpe x k2 pb ->
+     rawK unit S gpo gpe tgpe x (k1 + k2) (update_profile (AX unit) (PX unit S gpo gpe tgpe) (repeat 0%Z (length x)) pa pb sa sb)).
+Proof.
+  intros unit S gpo gpe tgpe dim x Hd Hx HL. split; [exact (make_profile_raw unit S gpo gpe tgpe dim Hd x Hx HL)|]. split.
+  - intros k n p Hp. eapply set_gap_penalties_prof; eassumption.
+  - intros k1 k2 sa sb pa pb Ha Hb. eapply update_profile_raw; eassumption.
+Qed.
+Print Assumptions C08_profiles_of_copies.
+
+(* THE RUN: n copies of x, any task list (guide tree), any scheme passing the check: whenever the model's progressive
+   alignment returns, every merge has the diagonal raw path and all-match operations *)
+Theorem C08_every_merge_of_copies_is_diagonal :
+  forall (unit : Z), (0 <= unit)%Z -> forall (S : list (list Z)) (gpo gpe tgpe gam : Z) (dim : nat) (mx : Z),
+  scheme_ok unit S gpo gpe tgpe gam dim mx = true -> (dim <= 23)%nat ->
+  forall x : list Z, Forall (fun c => inr dim c = true) x -> (1 <= length x)%nat ->
+  forall n tasks out, progressive (AX unit) (PX unit S gpo gpe tgpe) (repeat x n) tasks = Some out ->
+  Forall (diag_entry unit x) out.
+Proof. exact progressive_copies. Qed.
+Print Assumptions C08_every_merge_of_copies_is_diagonal.
+
+(* ... and with the weave layer: under each built-in scheme the rows that come out are the n input copies, without a gap *)
+Theorem C08_identical_inputs_come_out_without_gaps_exact : forall s m gpo gpe tgpe x n tasks out,
+  scheme_of s = Some (m, gpo, gpe, tgpe) ->
+  Forall (fun c => (Z.to_nat c <? dim_of s)%nat = true) x -> (1 <= length x)%nat ->
+  progressive (AX unitX) (PX unitX m gpo gpe tgpe) (repeat x n) tasks = Some out ->
+  let merges := map (fun e => (fst (fst (fst e)), snd (fst e))) out in       (* (a, b, c, operations) of every merge *)
+  Forall (fun t => snd t = repeat 0%Z (length x)) merges /\
+  final_rows (run_merges (map (@length Z) (repeat x n)) merges) (repeat x n) = repeat x n.
+Proof.
+  intros s m gpo gpe tgpe x n tasks out Hs Hx HL Hr merges.
+  pose proof (progressive_copies_default_schemes s m gpo gpe tgpe x n tasks out Hs Hx HL Hr) as D.
+  assert (A : Forall (fun t => snd t = repeat 0%Z (length x)) merges).
+  { unfold merges. apply Forall_forall. intros t Ht. apply in_map_iff in Ht as (e & <- & He). rewrite Forall_forall in D. destruct (D e He) as (_ & E). exact E. }
+  split; [exact A|]. apply all_match_run_no_gaps. eapply Forall_impl; [|exact A]. intros t Et. rewrite Et. apply all_match_zeros.
+Qed.
+Print Assumptions C08_identical_inputs_come_out_without_gaps_exact.
+
+(* the run does return: four copies with ambiguity codes, merged by the sequence-sequence kernel twice and then by the
+   profile-profile kernel; and three copies merged by the sequence-sequence and then the sequence-profile kernel (both
+   orders of the operands) - evaluated in exact arithmetic under the built-in nucleotide scheme *)
+Example C08_exact_run_returns :
+  match scheme_of PS_DNA with
+  | Some (m, gpo, gpe, tgpe) =>
+    let x := [0; 1; 4; 2; 3; 3; 4]%Z in
+    let ops := fun r => option_map (map (fun e => (snd (fst (fst e)), snd (fst e)))) r in
+    ops (progressive (AX unitX) (PX unitX m gpo gpe tgpe) [x; x; x; x] [(0, 1, 4); (2, 3, 5); (4, 5, 6)]%nat)
+      = Some [(diag 7, repeat 0%Z 7); (diag 7, repeat 0%Z 7); (diag 7, repeat 0%Z 7)] /\
+    ops (progressive (AX unitX) (PX unitX m gpo gpe tgpe) [x; x; x; x] [(0, 1, 4); (4, 2, 5); (3, 5, 6)]%nat)
+      = Some [(diag 7, repeat 0%Z 7); (diag 7, repeat 0%Z 7); (diag 7, repeat 0%Z 7)]
+  | None => False
+  end.
+Proof. vm_compute. split; reflexivity. Qed.
